@@ -176,7 +176,13 @@ func (b *tBroker) serve(conn net.Conn, j *tJournal, r *rand.Rand) {
 // tag and a generous deadline.
 func transportScenario(r *rand.Rand, thorough bool, lateFamily bool) {
 	b := &tBroker{r: rand.New(rand.NewSource(r.Int63())), pFault: []int{0, 15, 35}[r.Intn(3)], slow: time.Duration(80+r.Intn(60)) * time.Millisecond}
-	tr := &kafka.Transport{Dial: b.dial, MetadataTTL: 24 * time.Hour, IdleTimeout: time.Hour, ClientID: "c06"}
+	// sometimes idle connections expire between (and during) the calls: the idle timer's removeConn races with grabConn
+	idle := []time.Duration{time.Hour, time.Hour, 2 * time.Millisecond, 8 * time.Millisecond}[r.Intn(4)]
+	if lateFamily {
+		idle = time.Hour
+	}
+	closeMid := !lateFamily && r.Intn(5) == 0 // CloseIdleConnections while calls are in flight
+	tr := &kafka.Transport{Dial: b.dial, MetadataTTL: 24 * time.Hour, IdleTimeout: idle, ClientID: "c06"}
 	addr := kafka.TCP("broker1:9092")
 	kafka.VerifStart()
 	// warm-up: the pool becomes ready (discover's Metadata exchange on the first ctrl conn)
@@ -273,6 +279,10 @@ func transportScenario(r *rand.Rand, thorough bool, lateFamily bool) {
 				mu.Unlock()
 			}
 		}(g)
+	}
+	if closeMid {
+		time.Sleep(time.Duration(1+r.Intn(20)) * time.Millisecond)
+		tr.CloseIdleConnections()
 	}
 	wg.Wait()
 	tr.CloseIdleConnections()
